@@ -1,6 +1,7 @@
 package activitypub
 
 import (
+	"bytes"
 	"encoding/json"
 	"fmt"
 	"strconv"
@@ -180,8 +181,12 @@ func JSONWriteStringValue(b *[]byte, s string) (notEmpty bool) {
 	if len(s) == 0 {
 		return false
 	}
+	buf := bytes.Buffer{}
+	stringBytes(&buf, []byte(s), false)
+	v := buf.Bytes()
+	// NOTE: a quote that arrives already escaped is not escaped a second time
 	JSONWrite(b, '"')
-	JSONWriteS(b, escapeQuote(s))
+	JSONWrite(b, bytes.ReplaceAll(v[1:len(v)-1], []byte(`\\\"`), []byte(`\"`))...)
 	JSONWrite(b, '"')
 	return true
 }
